@@ -996,3 +996,19 @@ Proof.
     + destruct (queue s); [right; right; right; right; discriminate | right; right; right; left; discriminate].
     + right. right. left. discriminate.
 Qed.
+
+(* ------------------------------------------------------------------ never more tasks in flight than workers *)
+
+Lemma busy_length l : length (busy l) <= length l.
+Proof.
+  induction l as [|w l IH]; [simpl; lia|]. unfold busy in *. simpl. rewrite app_length.
+  destruct w; simpl; lia.
+Qed.
+
+Theorem in_flight_bound o n c cs :
+  let s := run o (init n c) cs in length (busy (ws s)) <= nw s /\ length (ws s) <= nw s.
+Proof.
+  intros s. destruct (workers_count o n c cs) as [_ [L _]]. fold s in L.
+  pose proof (busy_length (ws s)) as B.
+  destruct L as [L|L]; [rewrite L in *; simpl in *; lia | lia].
+Qed.
